@@ -1,6 +1,7 @@
 package simrt
 
 import (
+	"reflect"
 	"sort"
 	gotime "time"
 )
@@ -225,7 +226,7 @@ func (s *Sim) advanceToTimer() bool {
 		if t.state != stBlocked {
 			continue
 		}
-		if t.bk == bkSleep || (t.bk == bkSelect && !t.Background && len(s.timers) > 0) {
+		if t.bk == bkSleep || (t.bk == bkSelect && !t.Background && s.waitsOnTimer(t)) {
 			need = true
 		}
 	}
@@ -241,9 +242,31 @@ func (s *Sim) advanceToTimer() bool {
 		s.now = when
 	}
 	s.AutoAdv++
+	if s.AutoAdv > 1000000 {
+		return false // watchdog: never spin on the virtual clock
+	}
 	s.WriteEpoch++
 	s.fireDue()
 	return true
+}
+
+// waitsOnTimer: one of the channels the task selects on belongs to an active
+// virtual timer (only then can moving the clock wake it).
+//
+//go:norace
+func (s *Sim) waitsOnTimer(t *Task) bool {
+	for _, c := range t.selChans {
+		if !c.IsValid() || c.IsNil() {
+			continue
+		}
+		p := c.Pointer()
+		for _, tm := range s.timers {
+			if tm.active && tm.ch != nil && reflect.ValueOf(tm.ch).Pointer() == p {
+				return true
+			}
+		}
+	}
+	return false
 }
 
 // Advance moves the virtual clock forward by d (d may be 0) and delivers the
